@@ -1064,6 +1064,22 @@ def check_c13(tier, replay):
         open(cfg, "w").write(txt)
         vlib.run_tlc("MC_Crash", cfg, prop + "e" + backend, timeout_s=1800, coverage=False,
                      tag_sink=lambda tag, obj: cases.append(obj) if tag == "CASE" else None)
+    # folder-level operations: CrashFolder.tla
+    fdev = "FolderStepsNotAtomic"
+    for backend in ("fs", "db"):
+        fconsts = {"Folders": '{"f1", "f2"}', "MaxOps": "2" if tier == "quick" else "3",
+                   "Backend": '"%s"' % backend, "Deviations": "{}", "EmitCases": "FALSE"}
+        cfg = vlib.render_cfg("MC_CrashFolder.cfg", fconsts, os.path.join(wd, "fprop_%s.cfg" % backend))
+        r = vlib.run_tlc("MC_CrashFolder", cfg, prop + "fp" + backend, timeout_s=600, coverage=False)
+        if r.violated:
+            raise ToolError("intended CrashFolder spec violates %s" % r.violated)
+        states += r.distinct
+        trans += r.generated
+        cfg = vlib.render_cfg("MC_CrashFolder.cfg", dict(fconsts, Deviations=dev_set([fdev]), EmitCases="TRUE"),
+                              os.path.join(wd, "femit_%s.cfg" % backend))
+        _strip_invariants(cfg, ["AccountLogBeforeOrAfter", "FoldersConsistent"])
+        vlib.run_tlc("MC_CrashFolder", cfg, prop + "fe" + backend, timeout_s=600, coverage=False,
+                     tag_sink=lambda tag, obj: cases.append(obj) if tag == "CASE" else None)
     if not cases:
         raise ToolError("TLC emitted no crash cases")
     # crash before the first write of an operation is the trivial 'before' case
